@@ -1,73 +1,2 @@
-// ---- on-disk format of oplog entries and headers (spec only; written from the property text / JS layout) ----
-/*@ item src/oplog/entry.rs struct EntryTreeUpgrade @*/
-/*@ item src/oplog/entry.rs struct Entry @*/
-/*@ item src/oplog/header.rs struct HeaderTree @*/
-/*@ item src/oplog/header.rs struct HeaderHints @*/
-/*@ item src/crypto/key_pair.rs struct PartialKeypair @*/
-/*@ item src/crypto/manifest.rs struct Manifest @*/
-/*@ item src/crypto/manifest.rs struct ManifestSigner @*/
-/*@ item src/oplog/header.rs struct Header @*/
-impl Clone for PartialKeypair {
-    fn clone(&self) -> (r: Self) ensures r == *self {
-        PartialKeypair { public: self.public.clone(), secret: match &self.secret { Some(k) => Some(k.clone()), None => None } }
-    }
-}
-
-pub open spec fn upgrade_enc(d: EntryTreeUpgrade) -> Seq<u8> { u64::dec_enc(d.fork) + u64::dec_enc(d.ancestors) + u64::dec_enc(d.length) + <Box<[u8]>>::dec_enc(d.signature) }
-pub open spec fn upgrade_eqv(a: EntryTreeUpgrade, b: EntryTreeUpgrade) -> bool { a.fork == b.fork && a.ancestors == b.ancestors && a.length == b.length && a.signature@ =~= b.signature@ }
-// drop flag is one byte (bit 0), then start and length varints
-pub open spec fn bitfield_update_enc(d: BitfieldUpdate) -> Seq<u8> { seq![if d.drop { 1u8 } else { 0u8 }] + u64::dec_enc(d.start) + u64::dec_enc(d.length) }
-
-pub open spec fn entry_flags(e: Entry) -> u8 {
-    (if e.user_data@.len() > 0 { 1u8 } else { 0u8 }) | (if e.tree_nodes@.len() > 0 { 2u8 } else { 0u8 })
-        | (if e.tree_upgrade is Some { 4u8 } else { 0u8 }) | (if e.bitfield is Some { 8u8 } else { 0u8 })
-}
-pub open spec fn opt_seq(c: bool, s: Seq<u8>) -> Seq<u8> { if c { s } else { Seq::<u8>::empty() } }
-// section k of an entry (1 user data, 2 tree nodes, 3 tree upgrade, 4 bitfield): present flag, flag bit, bytes
-pub open spec fn entry_present(k: int, d: Entry) -> bool {
-    if k == 1 { d.user_data@.len() > 0 } else if k == 2 { d.tree_nodes@.len() > 0 } else if k == 3 { d.tree_upgrade is Some } else { d.bitfield is Some }
-}
-pub open spec fn entry_bit(k: int) -> u8 { if k == 1 { 1u8 } else if k == 2 { 2u8 } else if k == 3 { 4u8 } else { 8u8 } }
-pub open spec fn entry_sec(k: int, d: Entry) -> Seq<u8> {
-    if k == 1 { <Vec<String>>::dec_enc(d.user_data) } else if k == 2 { <Vec<Node>>::dec_enc(d.tree_nodes) }
-    else if k == 3 { EntryTreeUpgrade::dec_enc(d.tree_upgrade->Some_0) } else { BitfieldUpdate::dec_enc(d.bitfield->Some_0) }
-}
-pub open spec fn entry_tail(k: int, d: Entry) -> Seq<u8>
-    decreases 5 - k
-{
-    if k < 1 || k > 4 { Seq::<u8>::empty() } else { opt_seq(entry_present(k, d), entry_sec(k, d)) + entry_tail(k + 1, d) }
-}
-// flags byte (1 user data, 2 tree nodes, 4 tree upgrade, 8 bitfield), then the present sections in that order
-pub open spec fn entry_enc(d: Entry) -> Seq<u8> { seq![entry_flags(d)] + entry_tail(1, d) }
-pub open spec fn entry_eqv(a: Entry, b: Entry) -> bool {
-    &&& a.user_data@ =~= b.user_data@
-    &&& <Vec<Node>>::eqv(a.tree_nodes, b.tree_nodes)
-    &&& a.tree_upgrade is Some == b.tree_upgrade is Some
-    &&& (a.tree_upgrade is Some ==> EntryTreeUpgrade::eqv(a.tree_upgrade->Some_0, b.tree_upgrade->Some_0))
-    &&& a.bitfield == b.bitfield
-}
-
-pub open spec fn header_tree_enc(d: HeaderTree) -> Seq<u8> { u64::dec_enc(d.fork) + u64::dec_enc(d.length) + <Box<[u8]>>::dec_enc(d.root_hash) + <Box<[u8]>>::dec_enc(d.signature) }
-pub open spec fn header_tree_eqv(a: HeaderTree, b: HeaderTree) -> bool { a.fork == b.fork && a.length == b.length && a.root_hash@ =~= b.root_hash@ && a.signature@ =~= b.signature@ }
-pub open spec fn header_hints_enc(d: HeaderHints) -> Seq<u8> { <Vec<String>>::dec_enc(d.reorgs) + u64::dec_enc(d.contiguous_length) }
-pub open spec fn header_hints_eqv(a: HeaderHints, b: HeaderHints) -> bool { a.reorgs@ =~= b.reorgs@ && a.contiguous_length == b.contiguous_length }
-// public key as a 32-byte buffer, then either the single byte 0 (no secret) or a 64-byte buffer secret ++ public
-pub open spec fn enc_keypair(d: PartialKeypair) -> Seq<u8> {
-    seq![32u8] + d.public.bytes() + (if d.secret is Some { seq![64u8] + d.secret->Some_0.sk_bytes() + d.public.bytes() } else { seq![0u8] })
-}
-pub open spec fn keypair_eqv(a: PartialKeypair, b: PartialKeypair) -> bool {
-    a.public.bytes() == b.public.bytes() && (a.secret is Some) == (b.secret is Some)
-        && (a.secret is Some ==> a.secret->Some_0.sk_bytes() == b.secret->Some_0.sk_bytes())
-}
-// version 0, hash id 0 (blake2b), type 1, signature id 0 (ed25519), 32-byte namespace, 32-byte public key
-pub open spec fn enc_manifest(d: Manifest) -> Seq<u8> { seq![0u8, 0u8, 1u8, 0u8] + d.signer.namespace@ + d.signer.public_key@ }
-pub open spec fn manifest_eqv(a: Manifest, b: Manifest) -> bool { a.hash@ == b.hash@ && a.signer.signature@ == b.signer.signature@ && a.signer.namespace@ == b.signer.namespace@ && a.signer.public_key@ == b.signer.public_key@ }
-pub open spec fn header_fields(d: Header) -> Seq<u8> {
-    Manifest::dec_enc(d.manifest) + PartialKeypair::dec_enc(d.key_pair) + <Vec<String>>::dec_enc(d.user_data) + HeaderTree::dec_enc(d.tree) + HeaderHints::dec_enc(d.hints)
-}
-// version 1, flags 2|4, 32-byte key, manifest, key pair, user data, tree, hints
-pub open spec fn header_enc(d: Header) -> Seq<u8> { seq![1u8, 6u8] + (d.key@ + header_fields(d)) }
-pub open spec fn header_eqv(a: Header, b: Header) -> bool {
-    a.key@ =~= b.key@ && Manifest::eqv(a.manifest, b.manifest) && PartialKeypair::eqv(a.key_pair, b.key_pair)
-        && a.user_data@ =~= b.user_data@ && HeaderTree::eqv(a.tree, b.tree) && HeaderHints::eqv(a.hints, b.hints)
-}
+//@include shim/entry_format.rs
+//@include shim/header_format.rs
